@@ -158,8 +158,7 @@ def run(ctx):
     rep.check(r3, bool(g) and bool(sp) and not hr.must_pass(g, sp), 'http:reply-needs-CONTENT', 'see C13-R1')
     END = [i for i, v in enumerate(F.adts['proto::rpc::RpcState']['variants']) if v['name'] == 'End'][0]
     bc = rr.calls(r'rpc::build_repl$')
-    g = rr.gate_edges(lambda d, v, vals: isinstance(d, tuple) and d[0] == 'discr' and v == END and ('state' in short(d) or any(isinstance(x, tuple) and x[0] == 'modby' for x in walk(d))))
-    rep.check(r3, len(bc) == 1 and bool(g) and not rr.must_pass(g, [bc[0][0]]), 'rpc:reply-needs-End', 'see C16-R3')
+    rep.check(r3, len(bc) == 1 and state_is_at(rr, [bc[0][0]], END, 'rpc_parse'), 'rpc:reply-needs-End', 'see C16-R3')
 
     r4 = rep.rule('C11-R4', 'the handler must see the stream from its first byte: if identification may complete in a later segment than it started (matcher state persists in the control block), the handler input must include the bytes consumed meanwhile', floor=1)
     # does the matcher state persist?  (C10-R4)  and what is the handler given?
